@@ -23,7 +23,8 @@ Record inv4 (s : state) : Prop := {
   x_roots : forall id ks k, In (id, ks) (roots s) -> In k ks -> k < wn w;
   x_edges : forall c d, In (c, d) (edges s) -> c < wn w /\ d < wn w;
   x_bfs : forall id o q seen, id < nthr s -> tpc (thr s id) = RCheck o q seen ->
-          NoDup (map fst seen) /\ (forall y, In y (map fst seen) -> y < wn w) /\ (forall x, In x q -> x < wn w)
+          NoDup (map fst seen) /\ (forall y, In y (map fst seen) -> y < wn w) /\ (forall x, In x q -> x < wn w);
+  x_pcall : forall id g nw, id < nthr s -> tpc (thr s id) = PCall g nw -> 0 < length (tslots (thr s id))
 }.
 
 Lemma group_bound s id g grp i d : inv4 s -> id < nthr s ->
@@ -73,6 +74,20 @@ Proof.
   right. do 3 eexists. split; [reflexivity|eassumption].
 Qed.
 
+Lemma pcall_step s id e g nw : inv1 w par s -> id < nthr s -> step_local w s id = Some e ->
+  tpc (e_self e) = PCall g nw -> 0 < length (tslots (e_self e)).
+Proof.
+  intros Hi Hid H. pose proof (i_thr _ _ _ Hi id Hid) as Ht.
+  pose proof (cancelled_false w par s (thr s id) Hi) as Hc.
+  pose proof (t_hold _ _ _ Ht) as Hh. unfold hexp in Hh. pose proof (t_synconly _ _ _ Ht) as Hso.
+  pose proof (t_start _ _ _ Ht) as Tst.
+  local_cases H; rewrite ?Epc in *; cbn [hpc] in Hh;
+    rewrite ?after_resolve_nc by assumption;
+    rewrite ?do_release_hold by (rewrite Hh; first [reflexivity | cbn; apply Hso; reflexivity]);
+    cbn; intros Hq; try discriminate; inversion Hq; subst.
+  destruct (Tst _ _ _ eq_refl) as [_ Hl]. lia.
+Qed.
+
 Lemma inv4_step s id s1 : inv1 w par s -> inv4 s -> step w s id = Some s1 -> inv4 s1.
 Proof.
   intros Hi Hx H. destruct (step_spec _ _ _ _ H) as (Hid & e & p & Hl & -> & Hp).
@@ -111,6 +126,14 @@ Proof.
            ++ intros y Hy. destruct (C2 y Hy); [apply B2; assumption|apply Hds; assumption].
            ++ intros y Hy. destruct (bfs_push_in _ _ _ _ _ _ D2 y Hy); [apply B3; right; assumption|apply Hds; assumption].
       * destruct (Toth x Hlt Hxi) as [E|(hi & r & h & _ & _ & E)]; rewrite E in Hpc; eapply (x_bfs _ Hx); eassumption.
+  - intros x g nw Hx' Hpc. destruct (le_lt_dec (nthr s) x) as [Hge|Hlt].
+    + destruct Tn as [E|(E & j & d & sy & h & Hc)]; [lia|]. assert (x = nthr s) as -> by lia.
+      rewrite Hc in Hpc. discriminate.
+    + destruct (Nat.eq_dec x id) as [->|Hxi].
+      * rewrite Tself in *. eapply pcall_step; eassumption.
+      * destruct (Toth x Hlt Hxi) as [E|(hi & r & h & _ & _ & E)]; rewrite E in *.
+        -- eapply (x_pcall _ Hx); eassumption.
+        -- cbn [slot_write tslots tpc] in *. rewrite set_slot_length. eapply (x_pcall _ Hx); eassumption.
 Qed.
 
 Lemma inv4_event s e s' : inv1 w par s -> inv4 s -> do_event w s e = Some s' -> inv4 s'.
@@ -127,6 +150,8 @@ Proof.
     + apply (x_edges _ Hx).
     + intros x o q seen Hx' Hpc. unfold start_run in *. cbn in *. unfold upd in Hpc. destruct (Nat.eqb x (nthr s)) eqn:Ex; [discriminate|].
       apply Nat.eqb_neq in Ex. eapply (x_bfs _ Hx); [|eassumption]. lia.
+    + intros x g nw Hx' Hpc. unfold start_run in *. cbn in *. unfold upd in *. destruct (Nat.eqb x (nthr s)) eqn:Ex; [discriminate|].
+      apply Nat.eqb_neq in Ex. eapply (x_pcall _ Hx); [|eassumption]. lia.
   - destruct (quiescent s) eqn:Hq; inversion H. constructor; try apply Hx.
     intros c d Hin. unfold evict in Hin. cbn in Hin. apply filter_In in Hin. apply (x_edges _ Hx). apply Hin.
   - destruct (quiescent s) eqn:Hq; inversion H. constructor; try apply Hx.
